@@ -7,6 +7,7 @@ import (
 	"fmt"
 	"io"
 	"net"
+	"sort"
 	"sync"
 	"time"
 
@@ -188,6 +189,10 @@ func runThrottle(sc thrScen, idx int) (map[string]any, error) {
 			}
 		}
 	}
+	// Each event is stamped under its own connection's recorder and reaches the shared history afterwards: between the two a
+	// goroutine can be preempted, so the shared history is NOT ordered by time across connections. The stamps are the facts
+	// (taken after the read was served: never early); the clause that sums over all connections (G2) needs them in time order.
+	sort.SliceStable(ev, func(i, j int) bool { return ev[i]["t"].(int) < ev[j]["t"].(int) })
 	reads := map[string]any{}
 	for _, o := range conns {
 		s := o.segs
